@@ -188,6 +188,35 @@ def run(F, R, tier):
         rets = sorted(free & M.return_blocks(B))
         R.ob("define-index", "a new symbol takes index num_definitions, which is then incremented", idx_ok and bool(incs) and not rets,
              "index argument of Symbol::new: %s; returns reachable without incrementing num_definitions: %s" % (idx_txt, rets), F.loc(df))
+    # a captured symbol's index is its position in the list of captured symbols (what GetFree / the closure's copy is indexed by):
+    # the length right after the symbol was pushed, minus one — or the length right before the push
+    dff = F.fn("compiler::symtab::SymbolTable::define_free")
+    if R.anchor("SymbolTable::define_free", dff):
+        Bf = M.Body(dff)
+        newsf = [(bi, b["term"]) for bi, b in enumerate(Bf.blocks) if not b.get("cleanup") and b["term"]["k"] == "call" and (b["term"].get("callee") or "").endswith("symtab::Symbol::new")]
+        pushes = [bi for bi, b in enumerate(Bf.blocks) if not b.get("cleanup") and b["term"]["k"] == "call" and (b["term"].get("callee") or "").endswith("Vec::<T, A>::push")
+                  and "free_symbols" in M.show(Bf.sym_op(b["term"]["args"][0], through_vars=True))]
+        okf, detf = len(newsf) == 1 and len(pushes) == 1, "%d Symbol::new, %d pushes to free_symbols" % (len(newsf), len(pushes))
+        if okf:
+            bi, t = newsf[0]
+            a = Bf.sym_op(t["args"][2], through_vars=True)
+            detf = "index argument: %s" % M.show(a)
+            # (len - 1) with the length taken after the push, or len taken before it
+            def len_call(x):
+                while x[0] in ("ref", "deref"):
+                    x = x[1]
+                return x if (x[0] == "call" and (x[1] or "").endswith("Vec::<T, A>::len") and "free_symbols" in M.show(x)) else None
+            minus1 = a[0] == "field" and a[2] == "0" and a[1][0] == "bin" and a[1][1] in ("SubWithOverflow", "Sub") and a[1][3] == ("const", 1, "usize") and len_call(a[1][2])
+            plain = len_call(a)
+            lc = (minus1 or plain)
+            if lc:
+                len_bb = lc[3][0] if len(lc) > 3 and lc[3] else None
+                after_push = len_bb is not None and Bf.dominates(pushes[0], len_bb) and pushes[0] != len_bb
+                okf = (bool(minus1) and after_push) or (bool(plain) and not minus1 and not after_push and len_bb is not None and Bf.dominates(len_bb, pushes[0]))
+                detf += "; length taken %s the push" % ("after" if after_push else "before")
+            else:
+                okf = False
+        R.ob("define-index", "a captured symbol takes its position in the list of captured symbols as its index", okf, detf, F.loc(dff))
     # a slot index, once handed out, is never handed out again: the running count only grows (a function written in a block keeps
     # the slot of a global it captured by reference; recycling the slots of an ended block lets a later binding share it), and
     # the frame size reported to the compiler is that count
